@@ -223,6 +223,9 @@ void Executor::op_file(const Op& op, TaskCtx& t) {
     auto& s = *o->s;
     (void)s.numRows(); (void)s.numCols();
     if (o->inconsistent) { count("post_skipped_inconsistent_lp"); s.clearLPReal(); o->inconsistent = false; o->lp = lp_from_sut(s, false); return; }
+    // known finding (skip entry): real-mode readers accept non-finite numbers; solving such an LP runs into SIGFPE / negative array indices.
+    // The entry is demonstrated from its replay plan on every run; workers do not solve those LPs again.
+    if (o->untrusted_model && known_skip("C13", "sanitizer", {{"frame", "__pthread_kill_implementation"}})) { count("post_skipped_nonfinite_model"); s.clearLPReal(); o->untrusted_model = false; o->lp = lp_from_sut(s, false); return; }
     uint32_t savemask = t.bug_mask; t.bug_mask = 0;
     op_begin(t);
     s.setInt(P::i("iterlimit"), 2000); o->pm.i[P::i("iterlimit")] = 2000;
